@@ -29,6 +29,7 @@ def dispatch (line : String) : Ans :=
   | "searchchk" :: r => handleSearchChk r
   | "bot" :: r => handleBot r
   | "book" :: r => handleBook r
+  | "glue" :: r => handleGlue r
   | _ => bad
 
 partial def loop (hin hout : IO.FS.Stream) : IO Unit := do
